@@ -441,6 +441,16 @@ def B3_reembed(rep, flow: Flow):
                 n += 1
                 tr = index_role(st.targets[0].slice, idxvar, valvar, listname)
                 vr = index_role(st.value.slice, idxvar, valvar, listname)
+                # the factor must be read from the Pauli itself (position j = qubit j); its LABEL is written the other way round
+                vb = st.value.value
+                from_label = (isinstance(vb, ast.Call) and isinstance(vb.func, ast.Attribute) and vb.func.attr in ("to_label", "__str__")) or \
+                    (isinstance(vb, ast.Name) and any(isinstance(a, ast.Assign) and any(isinstance(t, ast.Name) and t.id == vb.id for t in a.targets) and isinstance(a.value, ast.Call) and isinstance(a.value.func, ast.Attribute)
+                                                      and a.value.func.attr in ("to_label", "__str__") for a in ast.walk(f.node)))
+                if from_label:
+                    if vr == "POS":
+                        rep.finding("B3", f"{A_FITTER}:reembed-label", f"{pyfacts.where(f, st)}: the factor is read from the key's LABEL at the list position [{pyfacts.norm_stmt(st)}]; a label is written with the highest qubit first, so position j of the label is qubit m-1-j of the key: the factors land on the listed qubits in reverse order")
+                        continue
+                    raise AnalysisError(f"{pyfacts.where(f, st)}: the re-embedded factor is read from a label string with an index outside the vocabulary [{pyfacts.norm_stmt(st)}]")
                 if tr is None or vr is None:
                     raise AnalysisError(f"{pyfacts.where(f, st)}: index roles of the re-embedding store are outside the vocabulary [{pyfacts.norm_stmt(st)}]")
                 if tr == "QIDX" and vr == "POS":
@@ -504,6 +514,13 @@ def _B3_frame(rep, flow, f):
                     continue
                 val = init[0].value
                 fresh = isinstance(val, ast.Call) and ((isinstance(val.func, ast.Attribute) and val.func.attr in ("copy", "deepcopy")) or (isinstance(val.func, ast.Name) and val.func.id in ("Pauli", "deepcopy", "copy")))
+                if isinstance(val, ast.Call) and isinstance(val.func, ast.Name) and val.func.id == "Pauli" and len(val.args) == 1 and isinstance(val.args[0], ast.Name) and not val.keywords:
+                    # Pauli(<Pauli object>) adopts the z / x arrays of its argument (only Pauli(<string>) / Pauli((z, x)) of new arrays is fresh)
+                    tname = val.args[0].id
+                    tmpl_is_pauli = any(isinstance(a, ast.Assign) and any(isinstance(t, ast.Name) and t.id == tname for t in a.targets) and isinstance(a.value, ast.Call) and isinstance(a.value.func, ast.Name) and a.value.func.id == "Pauli" for a in ast.walk(f.node))
+                    if tmpl_is_pauli:
+                        rep.finding("B3", f"{A_FITTER}:fresh-key", f"{pyfacts.where(f, init[0])}: the full-register key `{kv}` is built as `{ast.unparse(val)}` from the template Pauli `{tname}`: the library's Pauli constructor ADOPTS the z / x arrays of a Pauli it is given, so every key writes into the same arrays - all entries end up as one operator [{pyfacts.norm_stmt(init[0])}]")
+                        continue
                 if isinstance(val, ast.Name):
                     rep.finding("B3", f"{A_FITTER}:fresh-key", f"{pyfacts.where(f, init[0])}: the full-register key `{kv}` is the shared template `{val.id}` itself, not a copy: every entry writes into the same Pauli [{pyfacts.norm_stmt(init[0])}]")
                 elif fresh:
